@@ -561,6 +561,94 @@ fn option_spellings() -> Acc {
     })
 }
 
+/// Every keyword of the vocabulary with several members of its argument language (values that
+/// look like numbers, units, keywords, operators), spelled alone, in spaced / touching / double
+/// parentheses, under `!`, and — for free-text arguments — bare, single- and double-quoted:
+/// all spellings of one primary must give the same result.
+fn every_primary_spellings() -> Acc {
+    use speclib::textspec::{ArgKind as K, VOCAB};
+    let mut cases: Vec<(String, Vec<String>, bool)> = vec![]; // (keyword, args, all args are free text)
+    for kw in VOCAB {
+        let choices: Vec<Vec<&str>> = kw
+            .args
+            .iter()
+            .map(|a| match a {
+                K::Str => vec!["x", "1000", "0", "+5", "5k", "5d", "f", "644", "-o", "-print", "true", "%p", "a.b", "..", "x/"],
+                K::U32Cmp | K::U64Cmp => vec!["5", "+5", "-5", "0"],
+                K::SizeCmp => vec!["5", "+5k", "-5M", "5c", "5G"],
+                K::TimeCmpMin | K::TimeCmpDay => vec!["5", "+5d", "-5h", "5m", "5s"],
+                K::TypeList => vec!["f", "f,d", "l"],
+                K::Perm => vec!["644", "-644", "/u+w", "u=rw,g=r"],
+                K::Format => vec!["%p", "%s"],
+                K::U32 => vec!["3"],
+            })
+            .collect();
+        let free = kw.args.iter().all(|a| *a == K::Str) && !kw.args.is_empty();
+        match choices.len() {
+            0 => cases.push((kw.word.to_string(), vec![], false)),
+            1 => {
+                for a in &choices[0] {
+                    cases.push((kw.word.to_string(), vec![a.to_string()], free));
+                }
+            }
+            _ => {
+                for a in &choices[0] {
+                    for b in &choices[1] {
+                        cases.push((kw.word.to_string(), vec![a.to_string(), b.to_string()], free));
+                    }
+                }
+            }
+        }
+    }
+    speclib::report::par_items(&cases, |(kw, args, free), acc| {
+        let plain = std::iter::once(kw.clone()).chain(args.iter().cloned()).collect::<Vec<_>>().join(" ");
+        // option words are not insignificant inside parentheses (they leave the leading run)
+        let is_option = matches!(kw.as_str(), "-depth" | "-threads" | "-maxdepth" | "-mindepth");
+        let mut variants: Vec<(String, &str)> = vec![(format!(" {plain}\t"), "blanks")];
+        if !is_option {
+            variants.push((format!("( {plain} )"), "parens-spaced"));
+            variants.push((format!("({plain})"), "parens-tight"));
+            variants.push((format!("(({plain}))"), "parens-double"));
+            variants.push((format!("( ({plain}) )"), "parens-mixed"));
+        }
+        if *free {
+            for q in ["'", "\""] {
+                let quoted = std::iter::once(kw.clone()).chain(args.iter().map(|a| format!("{q}{a}{q}"))).collect::<Vec<_>>().join(" ");
+                variants.push((quoted.clone(), if q == "'" { "quote-single" } else { "quote-double" }));
+                if !is_option {
+                    variants.push((format!("({quoted})"), "quote+parens-tight"));
+                }
+            }
+        }
+        if observe(&plain).is_err() {
+            // a primary that is refused (unsupported option, value outside the language) must be
+            // refused in every spelling
+            for (v, kind) in variants {
+                acc.transitions += 1;
+                acc.states += 1;
+                if let Ok(g) = observe(&v) {
+                    acc.violate(Violation::new(
+                        format!("C06:{kind}+every-primary:accepted-but-canonical-refused"),
+                        format!("{v:?} parses to {} although {plain:?} is refused", g.1.show()),
+                        json!({"kind": "pair", "canonical": plain, "variant": v, "deviations": [kind, "every-primary"]}),
+                    ));
+                }
+            }
+            return;
+        }
+        for (v, kind) in variants {
+            acc.transitions += 1;
+            judge(&plain, &v, &[kind, "every-primary"], acc);
+        }
+        // and the same under negation, compared with the negated canonical spelling
+        if !is_option {
+            acc.transitions += 2;
+            judge(&format!("! {plain}"), &format!("!({plain})"), &["negated-parens-tight", "every-primary"], acc);
+            judge(&format!("! {plain}"), &format!("! ( {plain} )"), &["negated-parens-spaced", "every-primary"], acc);
+        }
+    })
+}
+
 fn blank_inputs(acc: &mut Acc) {
     let blanks = [' ', '\t', '\r', '\n'];
     for len in 0..=4u32 {
@@ -586,6 +674,7 @@ pub fn run(ctx: &Ctx) -> i32 {
     primed_pairs(&mut b);
     acc = acc.merge(b);
     acc = acc.merge(option_spellings());
+    acc = acc.merge(every_primary_spellings());
     let mut extra = serde_json::Map::new();
     extra.insert("base_expressions".into(), json!(bs.len()));
     finish(
@@ -595,7 +684,7 @@ pub fn run(ctx: &Ctx) -> i32 {
             level: "model_checking",
             exhaustive: true,
             rule: "state = (base sentence, set of spelling deviations); deviation-bounded exploration: 0, 1 and 2 simultaneous departures from the canonical spelling at every site with every value, plus all sites of one kind at once; distinct = distinct (options, tree) results".into(),
-            bound: format!("every grammar sentence of <= {n} symbols over 15 symbols (5 primaries, the option words -depth and -threads 3, so options-only and option-led inputs occur, and two name tests whose value contains the other quote character); deviation bound 2; all 341 blank-only inputs of length 0..4; chains of 8..257 operands (every size in the range) with every operand parenthesised / every gap widened / every operator replaced by its synonym / every value quoted; 96 (canonical, variant) pairs judged on a fresh thread right after parsing a text that differs only inside a quoted value, and after 600 refused texts of nine kinds; every sentence of <= 5 symbols over (, ), -o, -threads 2, -threads 4, -depth, -name x with each primary (option words included) parenthesised, against the text-level reference"),
+            bound: format!("every grammar sentence of <= {n} symbols over 15 symbols (5 primaries, the option words -depth and -threads 3, so options-only and option-led inputs occur, and two name tests whose value contains the other quote character); deviation bound 2; all 341 blank-only inputs of length 0..4; chains of 8..257 operands (every size in the range) with every operand parenthesised / every gap widened / every operator replaced by its synonym / every value quoted; 96 (canonical, variant) pairs judged on a fresh thread right after parsing a text that differs only inside a quoted value, and after 600 refused texts of nine kinds; every sentence of <= 5 symbols over (, ), -o, -threads 2, -threads 4, -depth, -name x with each primary (option words included) parenthesised, against the text-level reference; every vocabulary keyword with 1..15 members of its argument language (values that look like numbers, units, keywords) in 5 layouts, negated, and bare / single- / double-quoted"),
             assumptions: vec![
                 "insignificant spelling = blanks (space, tab, CR, LF) between words and at the ends, -a/-and/juxtaposition, -o/-or, redundant parentheses (spaced or touching their operand), quoting style of string-class arguments".into(),
                 "quoting of numeric arguments is unspecified and never varied".into(),
